@@ -35,7 +35,8 @@ def sweep_params(g, name):
     elif name == "geometric_brownian":
         p |= {"init": g.choice([1.0, 2.0]), "sigma": g.choice([0.2, 0.5]), "mu": g.choice([0.0, 0.3])}
     elif name == "vasicek":
-        p |= {"init": g.choice([0.0, 0.04, 0.2]), "kappa": g.choice([1.0, 3.0]), "theta": g.choice([0.04, 0.1]), "sigma": g.choice([0.02, 0.1])}
+        p |= {"init": g.choice([0.0, 0.04, 0.2, 0.0]), "kappa": g.choice([1.0, 3.0]), "theta": g.choice([0.04, 0.1]), "sigma": g.choice([0.02, 0.1]),
+              "init_form": g.choice(["tuple", "scalar", "tensor0"])}      # the initial state as a tuple, a bare scalar or a 0-dim tensor
     elif name == "cir":
         p |= {"init": g.choice([0.04, 0.2, 0.0]), "kappa": g.choice([1.0, 3.0, 0.5]), "theta": g.choice([0.04, 0.1]), "sigma": g.choice([0.2, 1.0])}
         if g.chance(0.35):      # a rate / variance LEVEL of the order of 1e-4 (1 % volatility): the divisions of the QE scheme must not be clamped there
@@ -55,6 +56,8 @@ def sweep_params(g, name):
               "mean_up": g.choice([0.02, 0.1]), "mean_down": g.choice([0.05, 0.1]), "p_up": g.choice([0.5, 0.3, 0.8])}
     elif name == "local_volatility":
         p |= {"init": g.choice([1.0, 2.0]), "a": g.choice([0.2, 0.4]), "b": g.choice([0.0, 0.1]), "c": 0.0}
+        if g.chance(0.35):      # a few LARGE Euler steps (sigma sqrt(dt) = 0.6): each increment is exactly normal, so the mean test stays sharp
+            p |= {"a": 3.0, "b": 0.0, "dt": 0.04, "n": g.choice([2, 3])}
     else:
         p |= {"s0": 1.0, "xi": g.choice([0.04, 0.09]), "n": g.choice([6, 21]), "alpha": -0.4, "rho": -0.9, "eta": 1.9}
         p["v0"] = p["xi"]
@@ -201,7 +204,9 @@ def moment_suite(ctx, torch, S, name, p, NP, origin):
             (p["sigma"] ** 2 + 2 * p["lam"] * (pu * up ** 2 + (1 - pu) * dn ** 2)) * T, "moment:kou:logvar")
     elif name == "vasicek":
         k, th, sg, x0 = p["kappa"], p["theta"], p["sigma"], p["init"]
-        x = S.generate_vasicek(NP, n, init_state=(x0,), kappa=k, theta=th, sigma=sg, dt=dt, dtype=dt64)[:, -1]
+        form = p.get("init_form", "tuple")
+        init_arg = (x0,) if form == "tuple" else (x0 if form == "scalar" else torch.tensor(x0, dtype=dt64))
+        x = S.generate_vasicek(NP, n, init_state=init_arg, kappa=k, theta=th, sigma=sg, dt=dt, dtype=dt64)[:, -1]
         m, se = mean_se_(x)
         chk("mean = theta + (x0 - theta) exp(-kappa t)", m, se, th + (x0 - th) * math.exp(-k * T), "moment:vasicek:mean")
         v, sev = var_se_(x)
@@ -356,6 +361,10 @@ def check(ctx):
             except GridMismatch as e:
                 ctx.fail("an instrument simulated over the horizon (n-1) dt does not return n time steps", sp_ | {"generator": name}, key=f"inst:{name}:grid",
                          detail=str(e)[:200])
+    # corpus: a local-volatility Euler scheme with LARGE steps (sigma sqrt(dt) = 0.6) is still a martingale: S (1 + sigma dW) may
+    # become negative, flooring the factor at 0 would add drift
+    for via_ in ("generator", "instrument"):
+        moment_suite(ctx, torch, S, "local_volatility", {"dt": 0.04, "n": 2, "init": 2.0, "a": 3.0, "b": 0.0, "c": 0.0, "via": via_}, max(NP, 100000), "corpus")
     # ---------------- failing-input search directed at the generators whose correspondence broke:
     # the same moment statements evaluated at (tamed variants of) the disagreeing parameter sets
     seen = set()
